@@ -15,12 +15,12 @@ LEVEL = 'exploration'
 RULE = ('case = arrangement program over 2-3 applications (optionally one of them the module-level default app; each with the stock configuration - whose error '
         'objects are process-wide - or with its own errors_map): a sequence of steps served in one thread, each a plain request of any kind of vlib/site.py or an outer request to a handler '
         'that performs foreign operations in its middle: serve a request on another application (nested call, any kind), nest a further outer request (depth 2), '
-        'Request.copy() followed by writes to the copy, construct a new application (and serve on it) while serving; optionally followed by two requests on two '
+        'Request.copy() followed by writes to the copy, construct a new application (and serve on it) while serving, construct one from the configuration object of a live application and then set one of its configuration attributes; optionally followed by two requests on two '
         'different applications interleaved on two threads under the deterministic scheduler. Oracle: probes inside the handlers before and after every foreign '
         'operation show the own request of that application (environ identity, path, query string, cookie; response headers / cookies written before are still '
         'there); every response (outer, inner, plain, threaded) == the response of the same request on a fresh stand-alone application. The known defect K10 '
         '(ts_props store shared per class) is excluded by construction: the whole search runs with a harness-side shim that gives the generated properties '
-        'per-instance stores (vlib/shim.py); three pinned witnesses (nested call, copy(), construction while serving) run WITHOUT the shim. Additionally EVERY ordered pair of request kinds is served first on application A (stock, own errors_map, or virtual-host configuration with domain_map / app_name_header), then on B, then on A, with different and with identical request data. Non-trivial = at '
+        'per-instance stores (vlib/shim.py); three pinned witnesses (nested call, copy(), construction while serving) run WITHOUT the shim. Additionally every single-preemption schedule of two same-kind requests on two applications on two threads (12 kinds), and EVERY ordered pair of request kinds is served first on application A (stock, own errors_map, or virtual-host configuration with domain_map / app_name_header), then on B, then on A, with different and with identical request data. Non-trivial = at '
         'least one foreign operation or a threaded part, or a kind pair across two applications; distinct by case hash.')
 ASSUMPTIONS = ['search runs under the K10 shim (stated exclusion); witnesses run on the unmodified classes', 'nested calls on the SAME application (re-entrancy) are not part of the property',
                'reference responses come from stand-alone applications with their own error objects']
@@ -47,6 +47,8 @@ def solo(kind, n, cfg='default'):
     return _SOLO[key]
 
 
+RECONF = {'max_body_size': 4, 'allow_x_script_name': True, 'debug': True, 'catchall': False, 'app_name_header': 'X-App', 'max_memfile_size': 1}
+
 KIND = st.sampled_from([k for k in S.KINDS] + ['foreign'])
 
 
@@ -58,6 +60,9 @@ def act_st(napps, busy, depth):
         st.fixed_dictionaries({'do': st.just('setitem'), 'key': st.sampled_from(['verif.key', 'QUERY_STRING', 'HTTP_X_VERIF'])}),
         st.fixed_dictionaries({'do': st.just('copy'), 'w': st.integers(0, 3)}),
         st.fixed_dictionaries({'do': st.just('construct'), 'serve': st.booleans(), 'kind': KIND, 'n': st.integers(0, 30)}),
+        # a further application constructed from the configuration OBJECT of a live one, then configured differently
+        st.fixed_dictionaries({'do': st.just('construct'), 'serve': st.just(False), 'kind': st.just('ok'), 'n': st.just(0),
+                               'from': st.integers(0, napps - 1), 'set': st.sampled_from(sorted(RECONF))}),
     ]
     if others:
         base.append(st.fixed_dictionaries({'do': st.just('serve'), 'app': st.sampled_from(others), 'kind': KIND.filter(lambda k: k != 'foreign'), 'n': st.integers(0, 30)}))
@@ -105,6 +110,7 @@ class World:
             config = {'errors_map': _custom_errors()} if self.cfg[i] == 'custom' else (S.domain_config() if self.cfg[i] == 'domain' else None)
             self.apps.append(S.make_app(probe=self._probe_for(i), config=config, app=existing, foreign=self.foreign[i]))
         self.nforeign = 0
+        self.keep = []
         self.undo = []          # listeners are removed at the end of the case (the default app outlives it)
 
     def _probe_for(self, i):
@@ -192,6 +198,10 @@ class World:
                 if marks:
                     self.problems.append(f'{desc}: item assignment on the request of application {i} fired a listener registered on another application\'s request '
                                          f'(or on a copy): environ now holds {marks}')
+            elif a['do'] == 'construct' and a.get('set'):
+                new = ombott.Ombott(self.apps[a['from']].config)
+                setattr(new.config, a['set'], RECONF[a['set']])
+                self.keep.append(new)
             elif a['do'] == 'construct':
                 new = S.make_app(private_errors=True)
                 if a['serve']:
@@ -235,6 +245,7 @@ def run_case(ctx, case, shimmed=True):
                 fns.append(lambda i=i, k=k, n=n, ti=ti: w.serve(i, k, n, [], f'thread {ti} on app {i} {k, n}'))
             sched = Scheduler(fns, th['schedule'], relevant)
             sched.run()
+            w.yields = sched.yields
             for ti, e in enumerate(sched.errors):
                 if e is not None:
                     w.problems.append(f'thread {ti} raised {fmt_exc(e)[-500:]}')
@@ -254,6 +265,15 @@ def run_case(ctx, case, shimmed=True):
             raise CheckFailure(f'{desc}: response differs from the one the same request produces on a stand-alone application:\n  got  {got[0]!r} {got[1]!r} {got[2][:200]!r}\n'
                                f'  solo {ref[0]!r} {ref[1]!r} {ref[2][:200]!r}\n arrangement: {case}')
     return w
+
+
+THREAD_PAIRS = [('rex', 'rex'), ('expires', 'expires'), ('typed', 'typed'), ('signed', 'signed'), ('form_fixed', 'form_fixed'), ('chunked_ok', 'chunked_ok'),
+                ('ok', 'ok'), ('notfound', 'notfound'), ('badjson', 'badjson'), ('crash', 'crash'), ('urlinfo', 'urlinfo'), ('auth', 'auth')]
+
+
+def yields_of(ctx, case):
+    w = run_case(ctx, case, shimmed=True)
+    return w.yields
 
 
 def check_case(ctx, case):
@@ -335,6 +355,25 @@ def run(ctx):
                 ctx.guarded(check_pair, {'napps': 2, 'default': -1, 'threads': None, 'cfg': cfg,
                                          'steps': [{'app': 0, 'kind': a, 'n': 5, 'acts': []}, {'app': 1, 'kind': b, 'n': 5, 'acts': []}, {'app': 0, 'kind': b, 'n': 5, 'acts': []}]})
         ctx.count('exhaustive_ordered_kind_pairs_across_two_apps', len(pairs))
+        # every request kind after a further application was constructed from the configuration object of A (or B) and then configured differently
+        grid = [(k, src, attr) for k in kinds for src in (0, 1) for attr in sorted(RECONF)]
+        for k, src, attr in grid[ctx.shard::max(1, ctx.nshards)]:
+            act = {'do': 'construct', 'serve': False, 'kind': 'ok', 'n': 0, 'from': src, 'set': attr}
+            ctx.guarded(check_pair, {'napps': 2, 'default': -1, 'threads': None, 'cfg': ['default', 'default'],
+                                     'steps': [{'app': 0, 'kind': 'foreign', 'n': 5, 'acts': [act]}, {'app': 0, 'kind': k, 'n': 6, 'acts': []}, {'app': 1, 'kind': k, 'n': 7, 'acts': []}]})
+        ctx.count('reconfigured_derived_application_grid', len(grid))
+    # two applications, one request each on two threads: EVERY single-preemption schedule for pairs that meet in process-wide code
+    from vlib.sched import BIG
+    for pi, (a, b) in enumerate(THREAD_PAIRS):
+        if pi % max(1, ctx.nshards) != ctx.shard % max(1, ctx.nshards):
+            continue
+        base = {'napps': 2, 'default': -1, 'steps': [], 'cfg': ['default', 'default']}
+        probe_case = dict(base, threads={'reqs': [[0, a, 11], [1, b, 12]], 'schedule': [[0, BIG]]})
+        ya = yields_of(ctx, probe_case)[0]
+        for k in range(0, ya + 1):
+            ctx.guarded(check_pair, dict(base, threads={'reqs': [[0, a, 11], [1, b, 12]], 'schedule': [[0, k], [1, BIG], [0, BIG]]}))
+        ctx.count('threaded_bound1_pairs')
+        ctx.count('threaded_bound1_schedules', ya + 1)
     ctx.note('search runs under vlib/shim.py (per-instance ts_props stores): exclusion by construction of open finding K10; witnesses run without it')
     n = 600 if ctx.tier == 'quick' else 8000
     ctx.hyp(case_st(), check_case, n)
